@@ -98,6 +98,18 @@ func generate(w *World, prop string, only string) *genResult {
 				}()
 				g.run()
 			}()
+			for _, a := range ct.Asserts {
+				if !a.Used && len(g.obls) > 0 {
+					r.errors = append(r.errors, fmt.Sprintf("%s: assert anchor call#%d %s matches no call", ct.FullKey, a.Ord, a.Callee))
+					// an anchor that matches nothing is reported as a (missing) obligation of its own
+					when := "before"
+					if a.After {
+						when = "after"
+					}
+					g.obls = append(g.obls, &Obl{Name: fmt.Sprintf("%s#assert-anchor@%s.call#%d.%s", ct.FullKey, when, a.Ord, a.Callee), Func: ct.FullKey,
+						Clause: "anchor of an in-body assertion exists: " + a.Cl.Text, Goal: "false", G: g, Kind: "assert", Tags: ct.Tags})
+				}
+			}
 			for _, t := range ct.Tolerates {
 				if !t.Used && len(g.obls) > 0 {
 					r.errors = append(r.errors, fmt.Sprintf("%s: tolerates call#%d %s matches no call", ct.FullKey, t.Ord, t.Callee))
